@@ -261,6 +261,35 @@ def defaults_and_untyped(ctx):
     if got != ["true", "false", "2001-02-03T04:05:06", "2001-02-03T04:05:06"]:
         ctx.fail("a value of a simple type derived by restriction is not written in the XSD lexical form", meta, got,
                  ["true", "false", "2001-02-03T04:05:06", "2001-02-03T04:05:06"])
+    # (g) values of a complexType with simpleContent (text + attributes) as members, single and repeated: the text is
+    #     the element's text and the attributes sit on that element ("attributes on their owner")
+    sschema = ('<xsd:complexType name="Money"><xsd:simpleContent><xsd:extension base="xsd:decimal"><xsd:attribute '
+               'name="cur" type="xsd:string"/></xsd:extension></xsd:simpleContent></xsd:complexType>'
+               '<xsd:complexType name="Order"><xsd:sequence><xsd:element name="total" type="x:Money"/>'
+               '<xsd:element name="fee" type="x:Money" minOccurs="0" maxOccurs="unbounded"/></xsd:sequence>'
+               '<xsd:attribute name="id" type="xsd:string"/></xsd:complexType><xsd:element name="f"><xsd:complexType>'
+               '<xsd:sequence><xsd:element name="o" type="x:Order"/></xsd:sequence></xsd:complexType></xsd:element>')
+    sc = wsdlkit.client(wsdlkit.wsdl_doc(sschema, "f", None), nosend=True)
+    ctx.case(("simple-content-members",), True)
+    try:
+        T = "{%s}" % wsdlkit.TNS
+        o = sc.factory.create(T + "Order")
+        o._id = "o1"
+        o.total.value, o.total._cur = 5, "EUR"
+        for v, cur in ((1, "USD"), (2, "CHF")):
+            m = sc.factory.create(T + "Money")
+            m.value, m._cur = v, cur
+            o.fee.append(m)
+        root = xmlread.parse(wsdlkit.envelope_bytes(sc.service.f(o)))
+        onode = [n for n in xmlread.walk(root) if n["name"][1] == "o"][0]
+        got = [dict((k[1], v) for k, v in onode["attrs"].items() if k[0] is None)] + \
+            [[c["name"][1], c.get("text"), dict((k[1], v) for k, v in c["attrs"].items())] for c in onode["children"]]
+    except Exception as e:
+        got = repr(e)
+    want = [{"id": "o1"}, ["total", "5", {"cur": "EUR"}], ["fee", "1", {"cur": "USD"}], ["fee", "2", {"cur": "CHF"}]]
+    if got != want:
+        ctx.fail("values with text and attributes are not written as text plus attributes on their own element",
+                 {"stream": "simple-content-members"}, got, want)
     # (f) the prefix an xsi:type value uses stays bound when the finished part is qualified (D48)
     ctx.case(("clobbered-type-prefix",), True)
     if clobbered_type_prefix() is not None:
